@@ -20,6 +20,7 @@ func init() {
 		},
 		Assumptions: commonAssumptions,
 		Engines:     "LOCK, GUARD, PATH, WHO, MIRROR, CODEC",
+		TagMatrix:   [][]string{{"dev"}},
 		Run:         runC14,
 	})
 }
